@@ -836,5 +836,8 @@ func main() {
 	}
 	run.CountN("model-input:connection field sent as raw spelling (Lean coerces variables and arguments)", rawConnSent)
 	run.CountN("model-input:connection field sent as the harness's own reading (outside the Lean vocabulary)", rawConnFallback)
+	for why, n := range rawFallbackWhy {
+		run.CountN("model-input:fallback because "+why, n)
+	}
 	run.Finish(h.model)
 }
